@@ -272,8 +272,8 @@ theorem stageTracer_keys (cd : ClassDesc) (n : Nat) (h : Heap) :
     rfl
   · simp [ht]
 
-theorem stageModel_keys (fix : Bool) (cd : ClassDesc) (h : Heap) :
-    (stageModel fix cd h).2.map Prod.fst =
+theorem stageModel_keys (fix : Bool) (cd : ClassDesc) (ve vc : Val) (h : Heap) :
+    (stageModel fix cd ve vc h).2.map Prod.fst =
       if cd.base = .container then [] else ["endogenous", "check"] ++ (if cd.base = .model then ["engine"] else []) := by
   unfold stageModel
   by_cases hc : cd.base = .container
